@@ -390,9 +390,16 @@ func runDrv5(c *Ctx) {
 		closed := lp.Holds("recv#1", token.EQL, "false") || lp.Has("recv#1", token.EQL, "true", false)
 		open := lp.Has("recv#1", token.EQL, "true", true)
 		key := "Next:" + pathSig(lp, 99)
+		isEOF := lp.Holds(recvName+".err−g:EOF", token.EQL, "0") || lp.Holds("g:EOF−"+recvName+".err", token.EQL, "0")
+		notEOF := lp.Holds(recvName+".err−g:EOF", token.NEQ, "0") || lp.Holds("g:EOF−"+recvName+".err", token.NEQ, "0")
 		switch {
+		case closed && isEOF:
+			c.Check(ret != "g:EOF" && ret != "const:nil" && ret != recvName+".err", key, lp.Exit.Pos(), "channel closed and the stored error is io.EOF itself (a read past the end of a truncated file) ⇒ a different, non-nil error (returns %s): io.EOF from Next means `no more rows` to database/sql", ret)
 		case closed && lp.Holds(recvName+".err", token.NEQ, "nil"):
 			c.Check(ret == recvName+".err", key, lp.Exit.Pos(), "channel closed and an error stored ⇒ that error is returned (returns %s)", ret)
+			if !notEOF && !pagersNeverReturnRawEOF(p) {
+				c.Fail(key+" eof", lp.Exit.Pos(), "the stored error is handed to database/sql without excluding io.EOF, and a pager returns the raw error of its read (io.EOF for a page beyond the end of a truncated file): database/sql takes io.EOF from Next as a clean end of rows, so a truncated file gives a short result and rows.Err() == nil")
+			}
 		case closed && lp.Holds(recvName+".err", token.EQL, "nil"):
 			c.Check(ret == "g:EOF", key, lp.Exit.Pos(), "channel closed and no error ⇒ io.EOF (returns %s)", ret)
 		case closed:
@@ -658,4 +665,28 @@ func runDrv7(c *Ctx) {
 	_ = t
 	c.Check(nStar == 1 && starOK, "expand: star", ex.Pos(), "`*` appends Columns()'s result in place")
 	c.Check(nOther == 1 && otherOK, "expand: named", ex.Pos(), "a named column is appended unchanged")
+}
+
+// pagersNeverReturnRawEOF: no pager implementation returns the unwrapped error of a library read (which is io.EOF at
+// the end of the file).
+func pagersNeverReturnRawEOF(p *Program) bool {
+	for _, impl := range p.pagerImpls("page") {
+		for _, r := range returnsOf(impl) {
+			v := r.Results[len(r.Results)-1]
+			call, _ := extractOf(v)
+			if c2, ok := v.(*ssa.Call); ok {
+				call = c2
+			}
+			if call == nil {
+				continue
+			}
+			if callee := call.Call.StaticCallee(); callee != nil && !p.InModule(callee) {
+				name := callee.Name()
+				if strings.HasPrefix(name, "Read") {
+					return false
+				}
+			}
+		}
+	}
+	return true
 }
